@@ -102,17 +102,16 @@ def build_files(coll):
             items.append({"k": "group", "name": g["name"], "items": gitems})
             arrays["/%s/%s" % (g["name"], g["dim"])] = np.arange(g["size"], dtype="i4") + g["offset"]
         root = {"name": f["path"].split("/")[-1], "items": items}
-        out[f["path"]] = (FileServer(root, arrays), arrays)
+        out[f["path"]] = (FileServer(root, arrays), arrays, f.get("host", HOST))
     return out
 
 
 def make_app(files):
     def app(env, sr):
         p = env["PATH_INFO"]
-        if env.get("SERVER_NAME") == HOST:
-            for k, (srv, _) in files.items():
-                if p in (k + ".dmr", k + ".dap"):
-                    return srv(env, sr)
+        for k, (srv, _, host) in files.items():
+            if env.get("SERVER_NAME") == host and p in (k + ".dmr", k + ".dap"):
+                return srv(env, sr)
         sr("404 Not Found", [("Content-Type", "text/plain"), ("Content-Length", "4")])
         return [b"nope"]
     return app
@@ -183,8 +182,27 @@ def gen_axis(rng, n):
 
 
 def shape_of(f, v):
+    if "shape" in v:
+        return tuple(v["shape"])
     sizes = dict((d, n) for d, n in f["dims"])
     return tuple(sizes[d] for d in v["dims"])
+
+
+def all_vars(f):
+    """root variables + the group's dimension array (id `/g/d`, as pydap's proxy names it)"""
+    out = list(f["vars"])
+    g = f.get("group")
+    if g:
+        out.append({"name": "/%s/%s" % (g["name"], g["dim"]), "shape": [g["size"]], "group": g["name"], "leaf": g["dim"]})
+    return out
+
+
+def find_var(f, name):
+    return [x for x in all_vars(f) if x["name"] == name][0]
+
+
+def proxy_of(ds, v):
+    return ds[v["group"]][v["leaf"]].data if "group" in v else ds[v["name"]].data
 
 
 def gen_reads(rng, coll, n):
@@ -194,11 +212,12 @@ def gen_reads(rng, coll, n):
     for _ in range(n):
         i = rng.randrange(len(files))
         f = files[i]
-        if not f["vars"]:
+        vs = all_vars(f)
+        if not vs:
             continue
         r = rng.random()
-        cand = [v for v in f["vars"] if v["name"] in dimnames] if r < 0.6 else f["vars"]
-        v = rng.choice(cand or f["vars"])
+        cand = [v for v in vs if v["name"] in dimnames or "group" in v] if r < 0.6 else vs
+        v = rng.choice(cand or vs)
         shape = shape_of(f, v)
         if 0 in shape:
             idx = [["all"] for _ in shape]
@@ -231,9 +250,9 @@ def run_reads(kind, coll, files, ops, session=None, handed=None):
             if ds is None:
                 # (a query string in the URL is taken for a constraint expression by open_url: open the bare file)
                 ds = opened[i] = open_url(user_url(dict(f, query=None)), session=session)
-            v = [x for x in f["vars"] if x["name"] == name][0]
+            v = find_var(f, name)
             key = tuple(norm_axis(a, m)[1] for a, m in zip(idx, shape_of(f, v)))
-            got = np.asarray(ds[name].data[key])
+            got = np.asarray(proxy_of(ds, v)[key])
             out.append(("ok", got.dtype.str.lstrip("<>=|"), got.ravel().tolist(), list(got.shape)))
         except Exception as e:  # the oracle compares outcomes; an escaping request dies on name resolution
             out.append(("exc", type(e).__name__, str(e)[:120]))
@@ -244,8 +263,8 @@ def own_values(coll, files, ops):
     out = []
     for i, name, idx in ops:
         f = coll["files"][i]
-        v = [x for x in f["vars"] if x["name"] == name][0]
-        arr = files[f["path"]][1]["/" + name]
+        v = find_var(f, name)
+        arr = files[f["path"]][1][name if name.startswith("/") else "/" + name]
         key = tuple(norm_axis(a, m)[1] for a, m in zip(idx, shape_of(f, v)))
         sel = arr[key]
         out.append(("ok", sel.dtype.str.lstrip("<>=|"), sel.ravel().tolist(), list(sel.shape)))
@@ -281,11 +300,25 @@ def ref_base_path(coll):
     return p if p not in ("", "/") else None
 
 
-def answers_identically(coll, files, d, n):
-    """the explicit hypothesis for one declared constraint: every file of the collection (all are under the base, on the
-    base's host unless given another) holds a 1-D variable d whose first n values equal the first file's, same type"""
+def share_group(coll, i):
+    """which files may share an entry for a declared constraint: the files on the first file's host (all lie under the
+    common directory), or, on the Earthdata host, the files of one provider/collection; any other file shares with nobody"""
+    f = coll["files"][i]
+    host = f.get("host", HOST)
+    if host == ck.EARTHDATA and ck.collection_of(f["path"]) is not None:
+        return ("earthdata", ck.collection_of(f["path"]))
+    if host == coll["files"][0].get("host", HOST):
+        return ("base",)
+    return ("alone", i)
+
+
+def answers_identically(coll, files, d, n, group):
+    """the explicit hypothesis for one declared constraint and one sharing group: every file of the group holds a 1-D
+    variable d whose first n values equal (same type)"""
     ref = None
-    for f in coll["files"]:
+    for i, f in enumerate(coll["files"]):
+        if share_group(coll, i) != group:
+            continue
         arr = files[f["path"]][1].get("/" + d)
         if arr is None or arr.ndim != 1 or arr.shape[0] < n:
             return False
@@ -304,23 +337,26 @@ def answers_identically(coll, files, d, n):
 def probes_for(coll):
     if not coll["files"]:
         return ["http://%s/data/A.nc.dap?dap4.ce=t%%5B0:1:1%%5D" % HOST]
-    dimnames = sorted({d for f in coll["files"] for d, _ in f["dims"]} | ({coll["files"][0]["group"]["dim"]}
-                      if coll["files"][0].get("group") else set()))
-    top = max([n for f in coll["files"] for _, n in f["dims"]] + [1])
-    paths = [f["path"] for f in coll["files"]]
-    first_dir = paths[0].rsplit("/", 1)[0]
-    extra = [first_dir + "2/z.nc", "/elsewhere/z.nc", first_dir + "/deeper/z.nc"]
+    fs = coll["files"]
+    dimnames = sorted({d for f in fs for d, _ in f["dims"]} | {f["group"]["dim"] for f in fs[:1] if f.get("group")})
+    top = max([n for f in fs for _, n in f["dims"]] + [1])
+    hp = [(f.get("host", HOST), f["path"]) for f in fs]
+    h0, p0 = hp[0]
+    first_dir = p0.rsplit("/", 1)[0]
+    extra = [(h0, first_dir + "2/z.nc"), (h0, "/elsewhere/z.nc"), (h0, first_dir + "/deeper/z.nc"),
+             ("other.test", hp[-1][1]), (h0 + ":8080", p0)]
+    if any(h == ck.EARTHDATA for h, _ in hp):
+        extra += [(ck.EARTHDATA, "/providers/P/collections/C1/granules/zz"), (ck.EARTHDATA, "/providers/P/collections/C9/granules/zz")]
     urls = []
     for d in dimnames:
         for k in range(-1, top + 1):
             for lead in ("", "/"):
                 ce = "%s%s%%5B0:1:%d%%5D" % (lead, d, k)
-                for p in paths + extra:
-                    urls.append("http://%s%s.dap?dap4.ce=%s" % (HOST, p, ce))
-                urls.append("http://other.test%s.dap?dap4.ce=%s" % (paths[-1], ce))
-                urls.append("https://%s%s.dap?dap4.ce=%s" % (HOST, paths[-1], ce))
-    urls.append("http://%s%s.dap?dap4.ce=%s" % (HOST, paths[0], "v%5B0:1:0%5D"))
-    urls.append("http://%s%s.dmr" % (HOST, paths[0]))
+                for h, p in hp + extra:
+                    urls.append("http://%s%s.dap?dap4.ce=%s" % (h, p, ce))
+                urls.append("https://%s%s.dap?dap4.ce=%s" % (hp[-1][0], hp[-1][1], ce))
+    urls.append("http://%s%s.dap?dap4.ce=%s" % (h0, p0, "v%5B0:1:0%5D"))
+    urls.append("http://%s%s.dmr" % (h0, p0))
     return urls
 
 
@@ -412,7 +448,7 @@ def check_collection(ctx, coll, ops, corr, how="generated"):
             seen.add(i)
             du = "http://%s%s.dmr" % (f.get("host", HOST), f["path"])
             steps.append("(get %s)" % req_sexp(requests.Request("GET", du).prepare().url))
-        v = [x for x in f["vars"] if x["name"] == name][0]
+        v = find_var(f, name)
         steps.append("(read %d %s (%s))" % (i, ck.tx(name), " ".join(
             "(%d %d %d)" % norm_axis(a, m)[0] for a, m in zip(idx, shape_of(f, v)))))
     line = "cons-run %d (%s) (%s) (%s)" % (0 if coll.get("session") == "plain" else 1,
@@ -428,14 +464,16 @@ def check_collection(ctx, coll, ops, corr, how="generated"):
     base = ref_base_path(coll)
     patched = res == "ok" and coll.get("session") != "plain" and base is not None and \
         all(f.get("scheme", "dap4") == "dap4" for f in coll["files"])
-    agree = {c: n == 0 or answers_identically(coll, files, d, n) for c, (d, n) in decl.items()}
+    declares = patched    # (a collection without a common directory raises before anything is declared)
+    groups_ = {share_group(coll, i) for i in range(len(coll["files"]))}
+    agree = {(c, g): n == 0 or answers_identically(coll, files, d, n, g) for c, (d, n) in decl.items() for g in groups_}
     plain = run_reads("plain", coll, files, ops)
     cached = run_reads("cached", coll, files, ops)
     own = own_values(coll, files, ops)
     n_shared_reads = n_excluded = 0
     for j, (i, name, idx) in enumerate(ops):
         f = coll["files"][i]
-        v = [x for x in f["vars"] if x["name"] == name][0]
+        v = find_var(f, name)
         ce = ce_of(name, idx, shape_of(f, v))
         if own[j] != plain[j][:4] or plain[j] != cached[j]:
             # my own server / generator, or the unconsolidated cache: not this module's subject, but never silent
@@ -445,12 +483,14 @@ def check_collection(ctx, coll, ops, corr, how="generated"):
             continue
         if ce in decl:
             n_shared_reads += 1
-        if ce in decl and not agree[ce]:
+        if ce in decl and not agree[(ce, share_group(coll, i))]:
             # excluded by the explicit hypothesis; still: some file's answer to that constraint
             n_excluded += 1
             d, n = decl[ce]
             answers = []
-            for g in coll["files"]:
+            for gi, g in enumerate(coll["files"]):
+                if share_group(coll, gi) != share_group(coll, i):
+                    continue
                 arr = files[g["path"]][1].get("/" + d)
                 if arr is not None and arr.ndim == 1 and arr.shape[0] >= n:
                     answers.append(("ok", arr.dtype.str.lstrip("<>=|"), arr[:n].tolist(), [n]))
@@ -473,8 +513,11 @@ def check_collection(ctx, coll, ops, corr, how="generated"):
         if len({pk for _, pk in members}) < 2:
             continue
         ps = [ck.parts(u) for u, _ in members]
-        good = (patched and len({(p[0], p[1], p[3]) for p in ps}) == 1 and ps[0][3] in decl and ps[0][1] == HOST
-                and all(ck.under_segments(p[2], base) for p in ps))
+        host0 = coll["files"][0].get("host", HOST)
+        same = len({(p[0], p[1], p[3]) for p in ps}) == 1 and ps[0][3] in decl
+        good = same and ((patched and ps[0][1] == host0 and all(ck.under_segments(p[2], base) for p in ps)) or
+                         (declares and ps[0][1] == ck.EARTHDATA and
+                          len({ck.collection_of(p[2]) for p in ps}) == 1 and ck.collection_of(ps[0][2]) is not None))
         if not good:
             ctx.oracle_fail("two requests share a cache key without the same URL or the same declared shared-dimension "
                             "constraint under the declared base", case, {"key": k, "urls": [u for u, _ in members][:4]},
@@ -492,6 +535,13 @@ def check_collection(ctx, coll, ops, corr, how="generated"):
                   "0" if n_shared_reads == 0 else "1+", "0" if hits_other == 0 else "1+"),
               sample={"files": [f["path"] for f in coll["files"]], "dims0": [f["dims"] for f in coll["files"][:1]], "res": res,
                       "normalised_probe_keys": n_norm, "excluded_reads": n_excluded} if hits_other else None)
+    check_collection.last = {
+        "res": res, "first_sizes": sizes0, "agree": all(agree.values()), "reads": len(ops), "declared_reads": n_shared_reads,
+        "excluded_reads": n_excluded, "other_file_hits": hits_other, "hits": sum(1 for _, hit, _ in handed if hit),
+        "probes": len(keys), "normalised_probe_keys": n_norm, "gets": len(cons_log),
+        "earthdata": any(f.get("host") == ck.EARTHDATA for f in coll["files"]),
+        "other_host": any(f.get("host") == "other.test" for f in coll["files"]),
+        "group_reads": sum(1 for o in ops if o[1].startswith("/"))}
     return ok
 
 
@@ -577,6 +627,15 @@ def gen_collection(rng, mode=None):
         if rng.random() < 0.15:
             f["group"] = {"name": "g", "dim": rng.choice(["gd", names[0]]), "size": rng.choice([1, 2, 3]), "offset": 7 * i}
         files.append(f)
+    r = rng.random()
+    if r < 0.06:
+        # one file of the collection lives on another host: never under the base (which is on the first file's host)
+        files[rng.randrange(nfiles)]["host"] = "other.test"
+    elif r < 0.12:
+        # an Earthdata collection: grouped by provider/collection, whatever the base
+        for i, f in enumerate(files):
+            f["host"] = ck.EARTHDATA
+            f["path"] = "/providers/P/collections/%s/granules/g%d" % ("C1" if (i < 2 or rng.random() < 0.7) else "C2", i)
     return {"files": files, "mode": mode}
 
 
@@ -628,6 +687,22 @@ def fixed_collections():
     out.append(({"files": [], "mode": "agree"}, []))
     # no dimensions at all: nothing declared, DMRs cached
     out.append(({"files": [_f("/data/A.nc", [], []), _f("/data/B.nc", [], [])], "mode": "agree"}, []))
+    # an Earthdata collection (grouped by provider/collection) with a granule of another collection
+    ed = lambda c, g: "/providers/P/collections/%s/granules/%s" % (c, g)   # noqa: E731
+    out.append(({"files": [_f(ed("C1", "g1"), [("t", 2)], [t(2, 0)], host=ck.EARTHDATA),
+                           _f(ed("C1", "g2"), [("t", 2)], [t(2, 0)], host=ck.EARTHDATA),
+                           _f(ed("C2", "g3"), [("t", 2)], [t(2, 0)], host=ck.EARTHDATA)], "mode": "agree"},
+                [[1, "t", [["all"]]], [2, "t", [["all"]]], [0, "t", [["all"]]], [1, "t", [["int", 0]]], [2, "t", [["int", 0]]]]))
+    # the second file on another host: outside the base
+    out.append(({"files": [_f("/data/A.nc", [("t", 2)], [t(2, 0)]), _f("/data/B.nc", [("t", 2)], [t(2, 50)], host="other.test"),
+                           _f("/data/C.nc", [("t", 2)], [t(2, 0)])], "mode": "agree"},
+                [[1, "t", [["all"]]], [2, "t", [["all"]]], [0, "t", [["all"]]], [1, "t", [["int", 0]]]]))
+    # a group with a dimension named like the root one, longer: `/g/t[0:1:1]` is not `t[0:1:1]`
+    out.append(({"files": [_f("/data/A.nc", [("t", 2)], [t(2, 0)], group={"name": "g", "dim": "t", "size": 3, "offset": 7}),
+                           _f("/data/B.nc", [("t", 2)], [t(2, 0)], group={"name": "g", "dim": "t", "size": 3, "offset": 70})],
+                 "mode": "agree"},
+                [[0, "/g/t", [["sl", 0, 2, 1]]], [1, "/g/t", [["sl", 0, 2, 1]]], [1, "t", [["all"]]], [0, "/g/t", [["all"]]],
+                 [1, "/g/t", [["all"]]], [1, "/g/t", [["int", 0]]], [0, "/g/t", [["int", 0]]]]))
     # query strings; a sibling directory: the base is their parent
     out.append(({"files": [_f("/data/cube/A.nc", [("t", 3)], [t(3, 0)], query="dap4.checksum=true"),
                            _f("/data/cube2/B.nc", [("t", 3)], [t(3, 0)])], "mode": "agree"},
@@ -638,14 +713,33 @@ def fixed_collections():
 def explore(ctx, tier):
     cs.block_network()
     corr = []
+    from collections import Counter
+    st = Counter()
+
+    def tally():
+        i = check_collection.last
+        st["collections"] += 1
+        st["outcome " + i["res"]] += 1
+        for z in i["first_sizes"]:
+            st["first file has a dimension of size %s" % (z if z < 3 else "3+")] += 1
+        st["files agree on the declared arrays" if i["agree"] else "files disagree (outside the hypothesis)"] += 1
+        for k in ("reads", "declared_reads", "excluded_reads", "hits", "other_file_hits", "probes", "normalised_probe_keys", "gets",
+                  "group_reads"):
+            st[k] += i[k]
+        st["earthdata collections"] += i["earthdata"]
+        st["collections with a file on another host"] += i["other_host"]
+
     for coll, ops in fixed_collections():
         check_collection(ctx, coll, ops, corr, how="fixed")
+        tally()
     rng = ctx.rng("consolidate")
-    n = 1200 if (tier == "thorough" or ctx.tier == "thorough") else 60
+    n = 1200 if ctx.tier == "thorough" else 250 if tier == "thorough" else 60
     for i in range(n):
         coll = gen_collection(rng)
         ops = gen_reads(rng, coll, rng.randint(2, 10))
         check_collection(ctx, coll, ops, corr)
+        tally()
+    ctx.notes.append("consolidate_metadata runs: " + ", ".join("%s=%d" % kv for kv in sorted(st.items())))
     ctx.correspond("consolidate_metadata on a CachedSession: GETs, outcome, keys afterwards, read-history trace vs model cons-run",
                    corr)
     return {"collections": n + len(fixed_collections()), "correspondence_cases": len(corr)}
